@@ -156,6 +156,8 @@ class World:
         self.preemptions = 0
         self.excluded = {}
         self.atomic_depth = 0
+        self.atomic_owner = None
+        self.mgmt_probe_atomic = False
         self.sems = {}            # name -> kernel semaphore
         self.sem_release_log = []
         self.pipes = []
